@@ -2,7 +2,10 @@
 
       wallet/chainntfns.go   connectBlock, disconnectBlock, addRelevantTx,
                              catchUpHashes (RescanFinished)
-      wallet/wallet.go       syncWithChain: the start-up rollback loop
+      wallet/wallet.go       syncWithChain: the first synchronisation
+                             (birthdayStamp == nil: SetSyncedTo(birthday
+                             block) + SetBirthdayBlock), the start-up rollback
+                             loop and the birthday-reset branch after it
       waddrmgr/sync.go       SetSyncedTo, SyncedTo, BlockHash
       waddrmgr/db.go         PutSyncedTo (predecessor check, height -> hash
                              entry, pruning of the entry MaxReorgDepth below),
@@ -93,28 +96,34 @@ Record wallet := {
   synced : bmeta;               (* Manager.SyncedTo() *)
   hashes : gmap Z N;            (* sync bucket: height -> hash (Manager.BlockHash) *)
   birthday_set : bool;          (* a birthday block is stored (enables the predecessor check) *)
+  bday : bmeta;                 (* the stored birthday block (meaningful when [birthday_set]) *)
   chain_synced : bool;          (* Wallet.ChainSynced() *)
   mined : list txrec;           (* transaction records confirmed in a block *)
   unmined : list N;             (* unconfirmed transaction records *)
 }.
 
 Definition set_sync (bs : bmeta) (hs : gmap Z N) (w : wallet) : wallet :=
-  {| synced := bs; hashes := hs; birthday_set := birthday_set w; chain_synced := chain_synced w;
+  {| synced := bs; hashes := hs; birthday_set := birthday_set w; bday := bday w; chain_synced := chain_synced w;
      mined := mined w; unmined := unmined w |}.
 Definition set_txs (m : list txrec) (u : list N) (w : wallet) : wallet :=
-  {| synced := synced w; hashes := hashes w; birthday_set := birthday_set w; chain_synced := chain_synced w;
-     mined := m; unmined := u |}.
+  {| synced := synced w; hashes := hashes w; birthday_set := birthday_set w; bday := bday w;
+     chain_synced := chain_synced w; mined := m; unmined := u |}.
 Definition set_chain_synced (b : bool) (w : wallet) : wallet :=
-  {| synced := synced w; hashes := hashes w; birthday_set := birthday_set w; chain_synced := b;
+  {| synced := synced w; hashes := hashes w; birthday_set := birthday_set w; bday := bday w; chain_synced := b;
      mined := mined w; unmined := unmined w |}.
 Definition set_birthday (b : bool) (w : wallet) : wallet :=
-  {| synced := synced w; hashes := hashes w; birthday_set := b; chain_synced := chain_synced w;
+  {| synced := synced w; hashes := hashes w; birthday_set := b; bday := bday w; chain_synced := chain_synced w;
+     mined := mined w; unmined := unmined w |}.
+(** [Manager.SetBirthdayBlock]. *)
+Definition set_bday (b : bmeta) (w : wallet) : wallet :=
+  {| synced := synced w; hashes := hashes w; birthday_set := true; bday := b; chain_synced := chain_synced w;
      mined := mined w; unmined := unmined w |}.
 
 (** The wallet right after creation on a chain whose genesis block is [g]
     (waddrmgr.Create: synced to the genesis block, its hash stored). *)
 Definition new_wallet (g : blk) : wallet :=
-  {| synced := meta_of 0 g; hashes := {[ 0 := bh g ]}; birthday_set := false; chain_synced := false;
+  {| synced := meta_of 0 g; hashes := {[ 0 := bh g ]}; birthday_set := false;
+     bday := {| m_height := 0; m_hash := 0%N; m_time := 0 |}; chain_synced := false;
      mined := []; unmined := [] |}.
 
 (** * waddrmgr *)
@@ -226,7 +235,29 @@ Fixpoint run_with (fact : bool) (hdr : headers) (l : list ntfn) (w : wallet) : r
   end.
 Definition run := run_with disconnect_records_parent_hash.
 
-(** * wallet/wallet.go: the rollback loop of syncWithChain *)
+(** * wallet/wallet.go: syncWithChain *)
+
+(** First synchronisation ([birthdayStamp == nil]: no birthday block stored
+    yet).  [loc] is the block locateBirthdayBlock returned (which block that
+    is, is property C16's business; here only what is done with it).  The
+    synced-to stamp is NOT [loc] itself: height [loc]'s hash is asked from the
+    backend again (GetBlockHash(startHeight), GetBlockHeader); then, in one
+    Update, SetSyncedTo(that stamp) and SetBirthdayBlock(loc, verified). *)
+Definition first_sync (backend : chain) (hdr : headers) (loc : bmeta) (w : wallet) : result :=
+  match chain_at backend (m_height loc) with
+  | None => fail w                                (* GetBlockHash *)
+  | Some cb =>
+    match hdr !! bh cb with
+    | None => fail w                              (* GetBlockHeader *)
+    | Some t =>
+      match put_synced_to {| m_height := m_height loc; m_hash := bh cb; m_time := t |} w with
+      | None => fail w
+      | Some w' => ok (set_bday loc w')
+      end
+    end
+  end.
+
+(** The rollback loop. *)
 
 Inductive walk_res :=
 | WErr                                   (* BlockHash / GetBlockHash / GetBlockHeader failed *)
@@ -256,16 +287,45 @@ Fixpoint walk (fuel : nat) (backend : chain) (hdr : headers) (w : wallet) (heigh
 
 Definition walk_fuel (w : wallet) : nat := Z.to_nat (m_height (synced w)) + 2.
 
+(** The birthday-reset branch: "if the rollback happened to go beyond our
+    birthday stamp" ([rollbackStamp.Height <= birthdayStamp.Height &&
+    rollbackStamp.Hash != birthdayStamp.Hash]) the rollback stamp becomes the
+    birthday block.  [birthdayStamp] is the stored birthday block (the one
+    birthdaySanityCheck returned, or the one the first synchronisation just
+    stored); it is never nil at that point. *)
+Definition crosses_birthday (stamp : bmeta) (w : wallet) : bool :=
+  birthday_set w && (m_height stamp <=? m_height (bday w)) && negb (m_hash stamp =? m_hash (bday w))%N.
+Definition reset_birthday (stamp : bmeta) (w : wallet) : wallet :=
+  if crosses_birthday stamp w then set_bday stamp w else w.
+
+(** One Update: the loop, then - only if it had to walk down -
+    SetSyncedTo(rollbackStamp), the birthday reset, TxStore.Rollback(height+1).
+    The backend being lower than the wallet's synced-to height makes the very
+    first GetBlockHash fail ([chain_at] = None): the Update fails. *)
 Definition sync_rollback (backend : chain) (hdr : headers) (w : wallet) : result :=
   match walk (walk_fuel w) backend hdr w (m_height (synced w)) false with
   | WFound _ false => ok w
   | WFound stamp true =>
     match put_synced_to stamp w with
     | None => fail w
-    | Some w' => ok (rollback (m_height stamp + 1) w')
+    | Some w' => ok (rollback (m_height stamp + 1) (reset_birthday stamp w'))
     end
   | _ => fail w
   end.
+
+(** syncWithChain up to the rescan request, as one attempt of waitForSync.
+    [first] = the [birthdayStamp] argument is nil: birthdaySanityCheck found no
+    stored birthday block when the backend connected.  waitForSync passes the
+    SAME argument to every repetition of a failed attempt, so [first] does
+    not follow [birthday_set] once the first-synchronisation Update of an
+    earlier attempt has committed.  With [first]: the first-synchronisation
+    Update, then the rollback Update; the two are separate transactions, a
+    failure of the second keeps what the first stored. *)
+Definition startup (first : bool) (backend : chain) (hdr : headers) (loc : bmeta) (w : wallet) : result :=
+  if first then
+    let '(w1, e1) := first_sync backend hdr loc w in
+    if e1 then (w1, true) else sync_rollback backend hdr w1
+  else sync_rollback backend hdr w.
 
 (** [catchUpHashes] (RescanProgress / RescanFinished): SetSyncedTo for every
     height above the synced one up to [height] (hash from GetBlockHash, time
